@@ -93,6 +93,45 @@ def gate(h: int, head_above_horizon: bool = False, twin: bool = False, real: boo
     return check_gate, {"idb": expected}
 
 
+def genesis_gate(nonempty: bool, twin: bool = False, real: bool = False):
+    """Checkpoint 0: a genesis-shaped candidate (all-zero parent id, height 0, valid by itself) with a symbolic id is accepted
+    only if the id is the built-in one - on an empty chain state and on one that already holds the real genesis block."""
+    table, mx = _table()
+    from symlib.world import Env, MAXTARGET, ZERO32
+    env = Env(real=real, horizon_off=False)
+    env.cons.MAX_KNOWN_HASH_HEIGHT = mx
+    env.cons.KNOWN_HASHES = table
+    dt = env.dt
+    expected = bytes.fromhex(table[0])
+
+    def check_genesis_gate(idb: bytes) -> bool:
+        """
+        post: _
+        """
+        if len(idb) != 32:
+            return True
+        cb = env.coinbase(0, [dt.Output(1_000_000_000, env.sg.SECP256k1PublicKey(bytes([0xC1]) * 64))], tok(TX, 20))
+        cand = env.block(0, ZERO32, [cb], idb, ts=1000, merkle=cb.hash())
+        cs = env.empty_state()
+        if nonempty:
+            import skepticoin.genesis as gen
+            if real:
+                cs = env.cstate.CoinState.zero()
+            else:
+                g = env.block(0, ZERO32, [env.coinbase(0, [], tok(TX, 21))], expected, ts=999)
+                cs = cs.add_block_no_validation(g)
+        try:
+            env.cons.validate_block_in_coinstate(cand, cs)
+            accepted = True
+        except Exception:
+            accepted = False
+        if twin:
+            return not accepted
+        return (not accepted) or idb == expected
+
+    return check_genesis_gate, {"idb": expected}
+
+
 def above_horizon(twin: bool = False, real: bool = False):
     """One above the real horizon full validation applies: a spend signed by the wrong key is rejected."""
     table, mx = _table()
@@ -226,6 +265,9 @@ def obligations(tier: str, known: List[str]) -> List[Ob]:
         if h >= 2:
             obs.append(Ob("gate[h=%d,served-head-above-horizon]" % h, C_GATE, "gate", {"h": h, "head_above_horizon": True}, timeout=300))
     obs.append(twin_of([o for o in obs if o.name.startswith("gate[h=%d]" % hs[-1])][0]))
+    for ne in (False, True):
+        obs.append(Ob("gate[h=0,genesis-shaped candidate,state %s]" % ("holds the real genesis" if ne else "empty"), C_GATE, "genesis_gate",
+                      {"nonempty": ne}, timeout=300))
     obs.append(Ob("above-horizon[h=max+1]", C_GATE, "above_horizon", {}, timeout=600))
     obs.append(twin_of(obs[-1]))
     obs.append(Ob("table-shape", C_GATE, "table_shape", {}, kind="anchor"))
